@@ -73,6 +73,10 @@ fn is_chunked(headers: &HeaderMap) -> bool {
 
 fn parse_content_length(val: &HeaderValue) -> Result<u64> {
     let val = val.to_str().map_err(|_| InvalidResponseKind::ContentLength)?;
+    // Content-Length = 1*DIGIT; `u64::from_str` alone would also accept a leading `+`
+    if !val.bytes().all(|b| b.is_ascii_digit()) {
+        return Err(InvalidResponseKind::ContentLength.into());
+    }
     let val = val.parse::<u64>().map_err(|_| InvalidResponseKind::ContentLength)?;
     Ok(val)
 }
